@@ -184,8 +184,9 @@ def random_doc(rng, mode=None):
         elif r < 0.8:
             it = {"type": "simple_template", "template": "S{query}"}
         elif r < 0.88:
-            it = {"type": "nest", "items": rng.choice([[], [], [{"type": "embed", "prefix": "x"}],
-                                                       [tpl("post", rng.choice(list(VARS_MENU)), rng)]])}
+            it = {"type": "nest", "items": rng.choice([[], [{"type": "embed", "prefix": "x"}],
+                                                       [inject(tpl("post", rng.choice(list(VARS_MENU)), rng), rng, "tpl")],
+                                                       [inject(tpl("post", R + "/allowed/v_in.py", rng), rng, mode)]])}
         elif r < 0.94:
             it = {"type": "bogus_type"}
         else:
@@ -275,6 +276,14 @@ def gen(tier, rng):
                                "finalizers": [wrap(item, depth, nest_fin, rng, mode)]}
                     entry = rng.choice(["dict", "yaml", "yaml_src", "yaml_src", "resolver"])
                     out.append(mk_case(doc, {"ext": False, "tv": tv, "paths": paths}, entry, env, ["a"]))
+    # ---- B2: template items inside a nested post-processing item (rejected today whatever they contain) ----
+    for vp in vars_paths:
+        for mode in ["none", "tpl", "all"]:
+            inner = inject(tpl("post", vp, rng), rng, mode)
+            doc = {"transformations": [{"type": "wildcard_placeholders"}],
+                   "postprocessing": [inject({"type": "nest", "items": [inner]}, rng, mode)]}
+            out.append(mk_case(doc, {"ext": False, "tv": rng.random() < 0.3, "paths": rng.choice(PATHS_ARGS)},
+                               rng.choice(["dict", "yaml_src"]), rng.choice(envs_tv), ["a"]))
     # ---- C: hostile environment values for both gates ----
     for v in ENV_HOSTILE + ENV4:
         doc = {"transformations": [ext_item(rng, "file")]}
